@@ -233,14 +233,27 @@ InnerCall(tk, sig, c, ob) ==
                     meth |-> FALSE]
 Inner(tk, sig, c) == LET own == Bind(OwnSig(tk, sig), c)
                      IN IF own.ok THEN Bind(sig, InnerCall(tk, sig, c, own.b)) ELSE TypeErr
-\* the other kinds are explored outside the scope of F4b / F4c, without include_args (see notes/C18.md) and never as methods
+\* the other kinds are explored outside the scope of F4b / F4c and never as methods
 KindCallOK(tk, sig, c) == tk # "plain" => /\ ~c.meth
                                           /\ ~NamesPosOnly(OwnSig(tk, sig), c)
                                           /\ ~NamesPosOnly(sig, c)
+\* include_args follows the same rule as for the plain function, against the callable's OWN parameters: a name that only the
+\* function underneath has (InnerOnly) is refused at decoration like any other non-parameter (explored with the null call)
 KindOpts(tk, sig, c) ==
-  IF ~Bind(OwnSig(tk, sig), c).ok THEN {DefaultOpt}
-  ELSE {DefaultOpt, [ia |-> NoIa, ir |-> FALSE, at |-> TRUE, fx |-> "ret", bare |-> FALSE]}
-       \cup (IF Inner(tk, sig, c).ok THEN {[ia |-> NoIa, ir |-> TRUE, at |-> FALSE, fx |-> "raise", bare |-> FALSE]} ELSE {})
+  LET os == OwnSig(tk, sig)
+      last == IF Len(os) = 0 THEN {} ELSE {os[Len(os)].n}
+      InnerOnly == ParamNames(sig) \ ParamNames(os)
+      one(S) == IF S = {} THEN {} ELSE {CHOOSE x \in S : TRUE}
+      refused == {[ia |-> Ia(N), ir |-> TRUE, at |-> FALSE, fx |-> "ret", bare |-> FALSE] :
+                    N \in {{"bad"}, last \cup {"bad"}} \cup (IF InnerOnly = {} THEN {} ELSE {InnerOnly, last \cup one(InnerOnly)})}
+      bound == {DefaultOpt,
+                [ia |-> NoIa, ir |-> FALSE, at |-> TRUE, fx |-> "ret", bare |-> FALSE],
+                [ia |-> Ia(last), ir |-> TRUE, at |-> FALSE, fx |-> "ret", bare |-> FALSE]}
+               \cup (IF Inner(tk, sig, c).ok
+                     THEN {[ia |-> NoIa, ir |-> TRUE, at |-> FALSE, fx |-> "raise", bare |-> FALSE],
+                           [ia |-> Ia(ParamNames(os)), ir |-> FALSE, at |-> TRUE, fx |-> "raise", bare |-> FALSE]}
+                     ELSE {})
+  IN (IF Bind(os, c).ok THEN bound ELSE {DefaultOpt}) \cup (IF NullCall(c) THEN refused ELSE {})
 
 -----------------------------------------------------------------------------
 (* Part 2.  The decorator and its wrapper.                                 *)
@@ -346,7 +359,7 @@ KindsOK == (pc = "invoke" /\ B.ok) =>
              /\ cs.tk \in {"renamed", "fewer"} => INR.ok
              /\ cs.tk \in {"plain", "stacked"} => INR = Bind(cs.sig, cs.call) /\ INR = B
              /\ (cs.tk = "inject" /\ INR.ok /\ NPos(cs.sig) >= 1) => INR.b[1] = V("pos", 1, 1, {})
-             /\ cs.tk # "plain" => (~cs.opt.ia.given /\ ~cs.call.meth)
+             /\ cs.tk # "plain" => ~cs.call.meth
 \* the wrapper: what is logged
 LoggedOK == pc = "start" =>
             LET L == Logged(OS(cs), cs.opt)
@@ -357,7 +370,8 @@ LoggedOK == pc = "start" =>
 \* the wrapper: shape of every finished observation
 Evs(e) == {i \in DOMAIN obs : obs[i].e = e}
 Shape == pc = "done" =>
-  IF obs[1].e = "raise" THEN Len(obs) = 1 /\ obs[1].what = "ValueError" /\ cs.opt.ia.given /\ "bad" \in cs.opt.ia.names
+  IF obs[1].e = "raise" THEN /\ Len(obs) = 1 /\ obs[1].what = "ValueError" /\ cs.opt.ia.given
+                             /\ ~(cs.opt.ia.names \subseteq ParamNames(OS(cs)))       \* some name is not a parameter of the callable
   ELSE IF ~B.ok THEN Len(obs) = 2 /\ obs[2] = Ev("raise", "TypeError")
   ELSE /\ Len(obs) = 5
        /\ obs[2].e = "start" /\ obs[3].e = "call" /\ obs[4].e = "end"           \* one action around exactly one call
